@@ -102,6 +102,19 @@ impl Gen {
             }
             "plist" => Some(("plist".into(), json!({"bytes": bytes_json(&plists::plist(rng))}))),
             "plistline" => Some(("plistline".into(), json!({"bytes": bytes_json(&plists::line(rng))}))),
+            "errmsg" => {
+                let (what, v): (&str, Value) = match rng.below(8) {
+                    0 => ("pattern", codes(&patterns::any(rng).0)),
+                    1 => ("pattern", codes(&{ let (p, _) = patterns::dewey(rng); format!("{}{}", p, rng.pick_str(&["<1", ">2", "", "}", "{"])) })),
+                    2 => ("dewey", codes(&{ let (p, _) = patterns::dewey(rng); if rng.chance(1, 3) { p.replace(['<', '>'], "") } else { format!("{}{}", p, rng.pick_str(&["<1", ">2<3", ""])) } })),
+                    3 => ("pkgpath", codes(&names::pkgpath(rng))),
+                    4 => ("depend", codes(&names::depend(rng))),
+                    5 => ("summary", codes(&summaries::faulty_text(rng))),
+                    6 => ("plistline", bytes_json(&plists::line(rng))),
+                    _ => ("digest", codes(&digests::algname(rng))),
+                };
+                Some(("errmsg".into(), json!({"what": what, "s": v})))
+            }
             "digest" => Some(("digest".into(), digests::case(rng))),
             "algname" => Some(("algname".into(), json!({"s": codes(&digests::algname(rng))}))),
             "hashvec" => Some(("hashvec".into(), json!({"data": bytes_json(&digests::vector(rng, i))}))),
